@@ -159,3 +159,33 @@ def owner_ok(prog, owner, roots, seen=()):
         return False
     cs = callers(prog).get(owner, set())
     return bool(cs) and all(owner_ok(prog, c, roots, seen + (owner,)) for c in cs)
+
+
+def wrapper_ops(prog, callee, arg_index, depth=0):
+    """If `callee` (stripped name) is a crate-local NON-PUBLIC function, the set of callee names to which it hands the `&mut` it receives in
+    parameter `arg_index` (transitively through further such wrappers); None when it is not such a wrapper or does anything else with it."""
+    if depth > 3:
+        return None
+    cands = [p for p in prog._bodies_raw if mir.strip_generics(p) == callee]
+    if len(cands) != 1:
+        return None
+    f = prog.fns.get(cands[0], {})
+    if f.get("vis") == "pub":
+        return None
+    b = prog.body(cands[0])
+    if b is None or arg_index >= b.arg_count:
+        return None
+    P = ("arg", arg_index + 1, b.names.get(arg_index + 1))
+    ops = set()
+    for st in b.stores():
+        root = mir.path_root(b.place_term(st[3]))
+        if root == P:
+            return None          # writes through the reference itself
+    for bb, t in b.calls():
+        for ai, a in enumerate(t["args"]):
+            at = b.operand_term(a)
+            if mir.path_root(mir.unref(at)) == P or mir.unref(at) == P:
+                nm = b.callee_name(t)
+                sub = wrapper_ops(prog, mir.strip_generics(nm), ai, depth + 1)
+                ops |= sub if sub is not None else {mir.strip_generics(nm)}
+    return ops
